@@ -432,6 +432,12 @@ pub fn run(ctx: &mut Ctx) {
                 cand.push((x, 12));
             }
         }
+        // degrees across 2^8 (relators with hundreds of letters; small sheet bounds)
+        for text in ["<1.1:1:1,1,1:3,256>", "<1.1:1:1,1,1:255,257>", "<1.1:2:2,1 2,2:4,300>", "<1.1:2:1 2,1 2,2:258 4,3>", "<1.1:3:1 2 3,1 3,2 3:3 260,3>", "<1.1:1 3:1,1,1,1:256,3,4>"] {
+            if let Some(x) = DS::parse(text) {
+                cand.push((x, 6));
+            }
+        }
         let want3 = [8usize, 8, 6, 6];
         for n in 1..=t.pick(3, 4) {
             for ds in crate::gen::dsets::dsets_of_size(3, n) {
